@@ -51,6 +51,10 @@ func RepoDir() string {
 // overlay may be nil; it maps absolute file names to replacement content.
 func Load(goos string, overlay map[string][]byte) (*Prog, error) {
 	dir := RepoDir()
+	// go/packages resolves the go command through this process's PATH
+	if !strings.HasPrefix(os.Getenv("PATH"), GoBin+":") {
+		os.Setenv("PATH", GoBin+":"+os.Getenv("PATH"))
+	}
 	env := append(os.Environ(),
 		"PATH="+GoBin+":"+os.Getenv("PATH"),
 		"GOFLAGS=-mod=readonly", "GOWORK=off", "CGO_ENABLED=0",
